@@ -2,6 +2,7 @@
 """Evaluate the sub-agent changes under /tmp/mut-*/out/m* with tools/evalmut.sh and
 file the confirmed ones under /verif/seeded/<PROP>-<m>/ (patch.diff, demo/, meta.json)."""
 import json, os, re, shutil, subprocess, sys
+ROOT = os.environ.get('VERIF_DIR', '/verif')
 PLAN = {
  'C01-m1': ['C01','C03','C06'], 'C01-m2': ['C01','C10'], 'C02-m1': ['C02'], 'C02-m2': ['C02','C06'],
  'C03-m1': ['C03','C17'], 'C03-m2': ['C03','C06','C04'], 'C04-m1': ['C04','C01'], 'C04-m2': ['C04','C06'],
@@ -44,7 +45,20 @@ PLAN5 = {
  'W5E-m1': ('E', ['C12']), 'W5E-m2': ('E', ['C12']),
  'W5F-m1': ('F', ['C09']), 'W5F-m2': ('F', ['C09']),
 }
+PLAN6 = {
+ 'W6A-m1': ('A', ['C01']), 'W6A-m2': ('A', ['C01']),
+ 'W6B-m1': ('B', ['C02']), 'W6B-m2': ('B', ['C02']),
+ 'W6C-m1': ('C', ['C03']), 'W6C-m2': ('C', ['C03']),
+ 'W6D-m1': ('D', ['C04']), 'W6D-m2': ('D', ['C04']),
+ 'W6E-m1': ('E', ['C06']), 'W6E-m2': ('E', ['C06']),
+ 'W6F-m1': ('F', ['C07']), 'W6F-m2': ('F', ['C07']),
+ 'W6G-m1': ('G', ['C10','C07']), 'W6G-m2': ('G', ['C10','C07','C09']),
+ 'W6H-m1': ('H', ['C20']), 'W6H-m2': ('H', ['C20']),
+}
 SRC = {}
+for k, (d, checks) in PLAN6.items():
+    PLAN[k] = checks
+    SRC[k] = f'/tmp/mut6-{d}/out/{k.split("-")[1]}'
 for k, (d, checks) in PLAN5.items():
     PLAN[k] = checks
     SRC[k] = f'/tmp/mut5-{d}/out/{k.split("-")[1]}'
@@ -64,7 +78,7 @@ for key, checks in PLAN.items():
     src = SRC.get(key, f'/tmp/mut-{prop}/out/{m}')
     if not os.path.exists(src + '/patch.diff'):
         print(key, 'missing'); continue
-    r = subprocess.run(['/verif/tools/evalmut.sh', src] + checks, capture_output=True, text=True)
+    r = subprocess.run([ROOT + '/tools/evalmut.sh', src] + checks, capture_output=True, text=True)
     out = r.stdout
     mm = re.search(r'suite_exit=(\d+) demo_clean_exit=(\d+) demo_mutant_exit=(\d+)', out)
     if not mm:
@@ -91,7 +105,7 @@ for key, checks in PLAN.items():
     })
     print(key, 'confirmed' if confirmed else 'NOT CONFIRMED', meta['checks_run'], flush=True)
     if not confirmed: continue
-    dst = f'/verif/seeded/{key}'
+    dst = f'{ROOT}/seeded/{key}'
     shutil.rmtree(dst, ignore_errors=True)
     os.makedirs(dst)
     shutil.copy(src + '/patch.diff', dst)
